@@ -36,9 +36,10 @@ def gen_case(rng, n_max=5, n_min=2, n=None):
     else:
         order = []
     return {"cands": cands, "ballots": [list(b) if b is not None else None for b in prof], "winner": winner,
-            "asn": rng.choice(("cp", "bp")), "order": order, "informal": rng.choice((0, 0, 3)), "warm": rng.random() < 0.25,
+            "asn": rng.choice(("cp", "bp", "cp", "bp", "cp", "bp", "inverse_vote_margin", "share_not_in_margin")), "order": order, "informal": rng.choice((0, 0, 3)), "warm": rng.random() < 0.25,
             "dict_order": rng.choice(("preference", "candidate", "reversed")), "cname": rng.choice(("con1", "con1", "con1", 1)),
-            "rank_gaps": rng.random() < 0.3}
+            "rank_gaps": rng.random() < 0.3,
+            "stored_winner": rng.choice(cands) if rng.random() < 0.25 else None}
 
 
 def run_raire(case, rec, monitor):
@@ -78,8 +79,19 @@ def run_raire(case, rec, monitor):
     if case.get("dict_order", "preference") != "preference":
         rec.count("ballot_mappings_not_stored_in_preference_order")
     tot = sum(1 for b in prof if b is not None) + case.get("informal", 0)
-    asn_func = cp_estimate if case["asn"] == "cp" else bp_estimate
-    contest = Contest(cname, list(cands), winner, tot, order=list(case.get("order") or []))
+    # the two shipped difficulty functions, and two others that decrease as the margin grows (the property speaks of every
+    # such function); the extra ones take values at and below 1, where the shipped ones never go
+    asn_func = {"cp": cp_estimate, "bp": bp_estimate,
+                "inverse_vote_margin": lambda w, l, o, t: 1.0 / (w - l),
+                "share_not_in_margin": lambda w, l, o, t: 1.0 - (w - l) / t}[case["asn"]]
+    if case["asn"] not in ("cp", "bp"):
+        rec.count("runs_with_a_difficulty_function_that_is_not_shipped")
+    # the Contest object stores the winner named in the file it came from; the winner to be audited is the ARGUMENT
+    # (simp_assertions.py passes the winner it has just computed): the two may differ
+    stored = case.get("stored_winner") or winner
+    if stored != winner:
+        rec.count("contest_object_stores_another_winner_than_the_argument")
+    contest = Contest(cname, list(cands), stored, tot, order=list(case.get("order") or []))
     sink = io.StringIO()
     if case.get("warm"):
         # the same Contest object was used before, for a different export of the same size (candidate names rotated in
